@@ -300,3 +300,5 @@ _extend("C19", "no absolute threshold in MATH refusals", "Also decides that no s
                "(one recorded finding: the analytic TRL solver).")
 _extend("C17", "no absolute threshold in MATH refusals", "Also decides the same for the TRL path, whose verdict must not depend on the scale in which equivalent "
                "measurements are expressed (recorded finding).")
+_extend("C13", "raw/quoted qualifier analysis of keys", "Also decides that keys enumerated with vnaproperty_keys are quoted before they are spliced into a descriptor.")
+_extend("C07", "assignment-clamp detection for the printf precision", "Also decides that the configured precision is not capped by an assignment in front of the conversion.")
